@@ -2,6 +2,7 @@ import inspect
 import math
 import re
 import sys
+import threading
 import warnings
 import ast
 from collections import OrderedDict
@@ -410,6 +411,11 @@ def _run_pretty(pretty_fn, value, ctx, trailing_comment=None):
 
 _DEFERRED_DISPATCH_BY_NAME = {}
 
+# Held while a deferred printer is moved to the live registry
+# (check, pop, register). That happens on the first print of a type,
+# possibly from several threads at once.
+_DEFERRED_DISPATCH_LOCK = threading.RLock()
+
 
 def get_deferred_key(type):
     return type.__module__ + '.' + type.__qualname__
@@ -563,32 +569,36 @@ def is_registered(
     if type in pretty_dispatch.registry:
         return True
 
-    if check_deferred:
-        # Check deferred printers for the type exactly.
-        deferred_key = get_deferred_key(type)
-        if deferred_key in _DEFERRED_DISPATCH_BY_NAME:
-            if register_deferred:
-                deferred_dispatch = _DEFERRED_DISPATCH_BY_NAME.pop(
-                    deferred_key
-                )
-                register_pretty(type)(deferred_dispatch)
+    with _DEFERRED_DISPATCH_LOCK:
+        if type in pretty_dispatch.registry:
             return True
 
-    if not check_superclasses:
-        return False
-
-    if check_deferred:
-        # Check deferred printers for supertypes.
-        for supertype in type.__mro__[1:]:
-            deferred_key = get_deferred_key(supertype)
+        if check_deferred:
+            # Check deferred printers for the type exactly.
+            deferred_key = get_deferred_key(type)
             if deferred_key in _DEFERRED_DISPATCH_BY_NAME:
                 if register_deferred:
                     deferred_dispatch = _DEFERRED_DISPATCH_BY_NAME.pop(
                         deferred_key
                     )
-                    register_pretty(supertype)(deferred_dispatch)
+                    register_pretty(type)(deferred_dispatch)
                 return True
-    return pretty_dispatch.dispatch(type) is not _BASE_DISPATCH
+
+        if not check_superclasses:
+            return False
+
+        if check_deferred:
+            # Check deferred printers for supertypes.
+            for supertype in type.__mro__[1:]:
+                deferred_key = get_deferred_key(supertype)
+                if deferred_key in _DEFERRED_DISPATCH_BY_NAME:
+                    if register_deferred:
+                        deferred_dispatch = _DEFERRED_DISPATCH_BY_NAME.pop(
+                            deferred_key
+                        )
+                        register_pretty(supertype)(deferred_dispatch)
+                    return True
+        return pretty_dispatch.dispatch(type) is not _BASE_DISPATCH
 
 
 def bracket(ctx, left, child, right):
